@@ -95,7 +95,7 @@ def run(ctx):
                             lambda t: is_call(t, name="get") and fld(arg(1), "verifying_shares")(t[2][0])
                             and mentions(t[2][1], item)))])
         # outputs
-        oks = [v.cx.operand(rv["ops"][0]) for (b, k, rv) in ret_writes(f) if k == "ok"]
+        oks = ok_values(f, v)
         good = False
         det = ""
         if len(oks) == 1 and oks[0][0] == "agg" and oks[0][1] == "tuple":
@@ -157,7 +157,7 @@ def run(ctx):
                 [("min_signers==", cmp_fact("eq", fld(arg(2), "min_signers"),
                                             lambda t: is_field(t, "KeyPackage", "min_signers") and t[1][0] == "ok" and tf(t[1][1]), False))],
                 ok_sinks(f))
-        oks = [v.cx.operand(rv["ops"][0]) for (b, k, rv) in ret_writes(f) if k == "ok"]
+        oks = ok_values(f, v)
         if len(oks) == 1:
             kp = oks[0]
             key_package_consistent(ctx, f, kp)
@@ -224,7 +224,7 @@ def run(ctx):
                     [("old.verifying_shares.get(id).ok_or", lambda item: succ_fact(
                         lambda t: t[0] == "ok_or" and is_call(t[1], name="get") and fld(arg(4), "verifying_shares")(t[1][2][0])
                         and tfield(item, 0)(t[1][2][1])))], require_fail_err=False)
-        oks = [v.cx.operand(rv["ops"][0]) for (b, k, rv) in ret_writes(f) if k == "ok"]
+        oks = ok_values(f, v)
         if len(oks) == 1 and oks[0][0] == "agg" and oks[0][1] == "tuple":
             kp, pkp = oks[0][4][0][1], oks[0][4][1][1]
             key_package_consistent(ctx, f, kp)
@@ -267,7 +267,7 @@ def run(ctx):
         g = P.fns.get(key)
         if g and g.has_body:
             vv = FnView.get(P, g)
-            oks = [vv.cx.operand(rv["ops"][0]) for (b, k, rv) in ret_writes(g) if k == "ok"]
+            oks = ok_values(g, vv)
             for kp in oks:
                 S, Y = get_field(kp, "signing_share"), get_field(kp, "verifying_share")
                 if key.endswith("try_from"):
